@@ -5,9 +5,8 @@ From WZ Require Model.Walk Gen.Walkers.
 Import ListNotations.
 Open Scope string_scope.
 
-(* what the reader is known not to read back: formula paragraphs - known_findings.json q_math_dropped_on_open *)
-Definition expected_uncovered : list (string * string * string) :=
-  [("MathParagraph", "*", "p"); ("OfficeMath", "*", "oMath"); ("OfficeMathPara", "*", "oMathPara")].
+(* every field of every struct type reachable from the body has a reader case *)
+Definition expected_uncovered : list (string * string * string) := [].
 
 (* the two hand-written tables of Corr/SchemaCorr.v against the reader's walker table (Gen/Walkers.v): the reader of
    the content of a structured document tag has one case of its own, "r", and hands every other element to the
@@ -137,9 +136,11 @@ Definition ex_body_run : dt := expand (SN "Body" [(0, SL [SN "Run" [(1, SL [SN "
 Lemma body_run_not_covered : I_uses_only ex_body_run = false.
 Proof. vm_compute. reflexivity. Qed.
 
-(* a formula paragraph is read back as an ordinary paragraph, without the formula *)
+(* a formula paragraph is written under the element name of ordinary paragraphs; the reader tells the two apart by
+   the content of the element, which the model's dispatch by name cannot: such values do not conform (they are
+   compared by the oracle on the implementation) *)
 Definition ex_math : dt :=
   expand (SN "Body" [(0, SL [SN "MathParagraph" [(1, SL [SN "OfficeMath" [(1, SS "<m:r/>")]])]])]).
 
-Lemma math_dropped : I_read (d_ty ex_math) (I_write "body" ex_math) <> ex_math.
-Proof. vm_compute. discriminate. Qed.
+Lemma math_outside_model : I_conforms ex_math = false.
+Proof. vm_compute. reflexivity. Qed.
